@@ -67,7 +67,9 @@ def run(ctx):
         grid_s = (-3000, -800, -100, 0, 100, 800, 3000)
         sweeps = [c for c in ctx.corpus if c.get("sweep")] + \
                  [{"sweep": True, "n": n, "target_logdet": t, "seed": ctx.rng.randrange(2 ** 31)} for n in grid_n for t in grid_s
-                  if abs(t) / n <= 600]
+                  if abs(t) / n <= 600] + \
+                 [{"sweep": True, "n": n, "target_logdet": t, "seed": ctx.rng.randrange(2 ** 31), "offset": off}
+                  for n in (2, 7, 40) for t in (0, 100, 800) for off in (1e3, 1e5) if abs(t) / n <= 600]
         cfgs = [c for c in ctx.corpus if not (c.get("kernel") or c.get("sweep"))] + \
                [tu.gen_config(ctx.rng) for _ in range(12 if ctx.quick() else 150)]
         for i in range(6 if ctx.quick() else 60):
@@ -122,6 +124,11 @@ def run(ctx):
         thetas = [theta, theta * 1.5]
         mus = [rs.randn(n), rs.randn(n)]
         data = rs.randn(T, n) * (math.exp(-(target / n) / 2))
+        if c.get("offset"):
+            # un-centred sensors: means far from zero, windows close to the mean (a formula that expands the square
+            # loses every digit here; the centred form does not)
+            mus = [m * c["offset"] for m in mus]
+            data = mus[0] + data
         clusters = [types.SimpleNamespace(train_inverse=t, inverse_covariance=None, log_determinant=None,
                                           stacked_data_mean=m) for t, m in zip(thetas, mus)]
         model = types.SimpleNamespace(arguments=types.SimpleNamespace(num_clusters=K, window_size=1), clusters=clusters)
@@ -140,7 +147,7 @@ def run(ctx):
         if bad:
             ctx.violation("impl-violation", bad[1], c, {"site": bad[0]})
         ctx.count("sweep_points")
-        ctx.case(("sweep", n, target), nontrivial=n >= 2,
+        ctx.case(("sweep", n, target, c.get("offset")), nontrivial=n >= 2,
                  sample={"n": n, "log_det": target, "ll00": float(table[0, 0])} if n in (100, 200) and len(ctx.samples) < 4 else None)
 
     # ---------------- (c) completed runs
